@@ -99,3 +99,85 @@ package simulation
 //@   assigns tarRead
 //@   loop 0: invariant payloads != nil && fresh(payloads) && gz != nil && tr != nil
 //@   loop 0: invariant len(payloads) + (foundBuildID ? 1 : 0) == tarRead - old(tarRead)
+
+// ---- the writer side. Trusted: archive/tar + compress/gzip writers. The ghost log tarName/tarMode/tarSize/tarMtime*/
+// tarDataRef records, per header handed to (*tar.Writer).WriteHeader (index tarWritten), what was handed over. ----
+//@ ghost var tarWritten int
+//@ ghost var tarName map
+//@ ghost var tarMode map
+//@ ghost var tarSize map
+//@ ghost var tarDataRef map
+//@ ext compress/gzip.NewWriter(w)
+//@   trusted
+//@   ensures result != nil && fresh(result)
+//@   assigns nothing
+//@ ext compress/gzip.(*Writer).Close(z)
+//@   trusted
+//@   assigns nothing
+//@ ext archive/tar.NewWriter(w)
+//@   trusted
+//@   ensures result != nil && fresh(result)
+//@   assigns nothing
+//@ ext archive/tar.(*Writer).Close(tw)
+//@   trusted
+//@   assigns nothing
+//@ ext time.Unix(sec, nsec)
+//@   trusted
+//@   assigns nothing
+//@ ext archive/tar.(*Writer).WriteHeader(tw, hdr)
+//@   trusted
+//@   requires tw != nil && hdr != nil
+//@   ensures tarWritten == old(tarWritten) + 1 && tarName == upd(old(tarName), old(tarWritten), hdr.Name) && tarMode == upd(old(tarMode), old(tarWritten), hdr.Mode) && tarSize == upd(old(tarSize), old(tarWritten), hdr.Size)
+//@   assigns tarWritten, tarName, tarMode, tarSize
+//@ ext archive/tar.(*Writer).Write(tw, b)
+//@   trusted
+//@   requires tw != nil
+//@   ensures tarDataRef == upd(old(tarDataRef), tarWritten - 1, ref(b))
+//@   assigns tarDataRef
+
+//@ pred logKeeps(from) = forall k int :: k < from ==> tarName[k] == old(tarName)[k] && tarMode[k] == old(tarMode)[k] && tarSize[k] == old(tarSize)[k] && tarDataRef[k] == old(tarDataRef)[k]
+
+//@ fn writeTarEntry
+//@   property C07
+//@   requires tw != nil
+//@   label C07.entry.logged
+//@   ensures result == nil ==> tarWritten == old(tarWritten) + 1 && tarName[old(tarWritten)] == path && tarMode[old(tarWritten)] == 384 && tarSize[old(tarWritten)] == len(data) && tarDataRef[old(tarWritten)] == ref(data)
+//@   label C07.entry.log.kept
+//@   ensures logKeeps(old(tarWritten))
+//@   label C07.entry.log.monotone
+//@   ensures tarWritten >= old(tarWritten)
+//@   assigns tarWritten, tarName, tarMode, tarSize, tarDataRef
+
+//@ pred permOf(pi, n) = (forall j in 0..n :: 0 <= pi[j] && pi[j] < n) && (forall j in 0..n :: forall k in 0..n :: j != k ==> pi[j] != pi[k])
+
+// writeArchiveStream: on success the log holds build_id first, then the entries' payloads in the order pi (a permutation
+// of the input) in which the names never decrease and are pairwise different: strictly increasing, whatever the input
+// order was; two entries with the same name make it fail.
+//@ fn writeArchiveStream
+//@   property C07
+//@   witness pi map = Slice_pi
+//@   label C07.write.count
+//@   ensures result == nil ==> tarWritten == old(tarWritten) + 1 + len(entries)
+//@   label C07.write.buildid.first
+//@   ensures result == nil ==> tarName[old(tarWritten)] == buildIDPath
+//@   label C07.write.perm
+//@   ensures result == nil ==> permOf(pi, len(entries))
+//@   label C07.write.payload.order
+//@   ensures result == nil ==> (forall k in 0..len(entries) :: tarDataRef[old(tarWritten) + 1 + k] == ref(entries[pi[k]].data) && tarMode[old(tarWritten) + 1 + k] == 384)
+//@   label C07.write.sorted
+//@   ensures result == nil ==> (forall k in 1..len(entries) :: !(entries[pi[k]].name < entries[pi[k - 1]].name))
+//@   label C07.write.duplicates.rejected
+//@   ensures result == nil ==> (forall a in 0..len(entries) :: forall b in 0..len(entries) :: a != b ==> entries[pi[a]].name != entries[pi[b]].name)
+//@   label C07.write.log.kept
+//@   ensures logKeeps(old(tarWritten))
+//@   assigns tarWritten, tarName, tarMode, tarSize, tarDataRef
+//@   loop 0: ghost at = idperm
+//@   loop 0: backedge at = upd(at, entry.name, rangeindex)
+//@   loop 0: invariant -1 <= rangeindex && rangeindex < len(sorted) && len(sorted) == len(entries) && fresh(sorted) && seen != nil && fresh(seen) && tw != nil && gz != nil
+//@   loop 0: invariant permOf(Slice_pi, len(entries)) && (forall k in 0..len(sorted) :: sorted[k].name == entries[Slice_pi[k]].name && ref(sorted[k].data) == ref(entries[Slice_pi[k]].data))
+//@   loop 0: invariant forall k in 1..len(sorted) :: !(sorted[k].name < sorted[k - 1].name)
+//@   loop 0: invariant tarWritten == old(tarWritten) + 2 + rangeindex && tarName[old(tarWritten)] == buildIDPath && logKeeps(old(tarWritten))
+//@   loop 0: invariant forall k in 0..rangeindex + 1 :: tarDataRef[old(tarWritten) + 1 + k] == ref(sorted[k].data) && tarMode[old(tarWritten) + 1 + k] == 384
+//@   loop 0: invariant forall k in 0..rangeindex + 1 :: sorted[k].name in seen
+//@   loop 0: invariant forall n int :: (n in seen) ==> 0 <= at[n] && at[n] <= rangeindex && sorted[at[n]].name == n
+//@   loop 0: invariant forall a in 0..rangeindex + 1 :: forall b in 0..rangeindex + 1 :: a != b ==> sorted[a].name != sorted[b].name
